@@ -616,3 +616,231 @@ Proof.
     + exact (cinv_open_layer sb1 sl1 tbl phi p C1).
   - destruct Hcs.
 Qed.
+
+(* ---------- flag words ---------- *)
+Lemma flag_has_zero flag bit : 0 <= bit -> flag_has flag bit = false -> Z.land flag bit = 0.
+Proof.
+  intros Hb H. unfold flag_has in H. apply Z.ltb_ge in H. assert (0 <= Z.land flag bit) by (apply Z.land_nonneg; now right). lia.
+Qed.
+Lemma zero_flag_has flag bit : Z.land flag bit = 0 -> flag_has flag bit = false.
+Proof. intros H. unfold flag_has. now rewrite H. Qed.
+
+Lemma flag_ok_sub flag : flag_ok flag = true -> Z.land flag flag_mask = flag.
+Proof.
+  unfold flag_ok. intros H. apply andb_true_iff in H as [H _]. apply andb_true_iff in H as [H _]. apply Z.eqb_eq in H.
+  rewrite <- (Z.land_m1_r flag) at 2. rewrite <- (Z.lor_lnot_diag flag_mask), Z.land_lor_distr_r, H, Z.lor_0_r. reflexivity.
+Qed.
+
+(* a flag word of the well-formed class selects the union (writing) path of OpenFile iff it has an access
+   mode, O_CREATE or O_TRUNC *)
+Lemma cache_mask_flag flag : flag_ok flag = true ->
+  Z.land flag cache_mask = Z.lor (Z.land flag memfs_access_mask) (Z.lor (Z.land flag o_create) (Z.land flag o_trunc)).
+Proof.
+  intros H. rewrite <- (flag_ok_sub flag H) at 1. rewrite <- Z.land_assoc.
+  change (Z.land flag_mask cache_mask) with (Z.lor memfs_access_mask (Z.lor o_create o_trunc)).
+  now rewrite !Z.land_lor_distr_r.
+Qed.
+
+Lemma flag_ok_trunc_access flag : flag_ok flag = true -> Z.land flag memfs_access_mask = 0 -> Z.land flag o_trunc = 0.
+Proof.
+  unfold flag_ok. intros H Ha. apply andb_true_iff in H as [_ H]. apply negb_true_iff in H. rewrite Ha in H. cbn [Z.eqb] in H.
+  rewrite andb_true_r in H. now apply flag_has_zero.
+Qed.
+
+Lemma flag_ok_no_append flag : flag_ok flag = true -> Z.land flag (Z.lnot o_append) = flag.
+Proof.
+  intros H. rewrite <- (flag_ok_sub flag H) at 1. rewrite <- Z.land_assoc. change (Z.land flag_mask (Z.lnot o_append)) with flag_mask.
+  exact (flag_ok_sub flag H).
+Qed.
+
+Lemma flag_ok_clear_excl flag : flag_ok flag = true -> flag_ok (Z.land flag (Z.lnot o_excl)) = true.
+Proof.
+  intros H. pose proof (flag_ok_sub flag H) as Hs. unfold flag_ok in *.
+  apply andb_true_iff in H as [H H3]. apply andb_true_iff in H as [H1 H2].
+  assert (Ea : Z.land (Z.land flag (Z.lnot o_excl)) memfs_access_mask = Z.land flag memfs_access_mask).
+  { rewrite <- Z.land_assoc. reflexivity. }
+  assert (Et : flag_has (Z.land flag (Z.lnot o_excl)) o_trunc = flag_has flag o_trunc).
+  { unfold flag_has. rewrite <- Z.land_assoc. reflexivity. }
+  rewrite Ea, Et, H2, H3, !andb_true_r. apply Z.eqb_eq. apply Z.eqb_eq in H1.
+  rewrite <- Z.land_assoc, (Z.land_comm (Z.lnot o_excl)), Z.land_assoc, H1. reflexivity.
+Qed.
+
+Lemma clear_excl_bits flag : flag_has (Z.land flag (Z.lnot o_excl)) o_excl = false /\
+  Z.land (Z.land flag (Z.lnot o_excl)) cache_mask = Z.land flag cache_mask /\
+  of_ro (Z.land flag (Z.lnot o_excl)) = of_ro flag /\ of_tr (Z.land flag (Z.lnot o_excl)) = of_tr flag.
+Proof.
+  unfold of_tr, of_ro, flag_has. rewrite <- !Z.land_assoc. repeat split.
+  change (Z.land (Z.lnot o_excl) o_excl) with 0. now rewrite Z.land_0_r.
+Qed.
+
+(* ---------- OpenFile once the layer holds what it has to hold ---------- *)
+Definition open_tail (sb2 sl2 : mst) (tbl : list chandle) (p : str) (flag perm : Z) : (mst * mst * list chandle) * res :=
+  let o := OpenFile p flag perm in
+  if negb (Z.land flag cache_mask =? 0) then
+    match m_step sb2 o with
+    | (sb3, RHandle bh) =>
+      match m_step sl2 o with
+      | (sl3, RHandle lh) =>
+        let '(tbl1, i) := alloc_ch tbl (HU (mkUF (Some bh) (Some lh) 0 [])) in
+        cret sb3 sl3 tbl1 (RHandle i)
+      | (sl3, r) => cret (fst (m_step sb3 (HClose bh))) sl3 tbl (RErr (err_of r))
+      end
+    | (sb3, r) => cret sb3 sl2 tbl (RErr (err_of r))
+    end
+  else open_layer m_step sb2 sl2 tbl o.
+
+Lemma cinv_open_tail sb sl tbl phi p flag perm :
+  CInvP sb sl tbl phi -> flag_ok flag = true ->
+  (Z.land flag cache_mask <> 0 -> is_file_at sl (normalize_path p) = true) ->
+  CInv (fst (open_tail sb sl tbl p flag perm)).
+Proof.
+  intros [T B] Hfo Hfile. set (key := normalize_path p) in *. unfold open_tail.
+  pose proof (ti_wfb _ _ _ T) as Wb. pose proof (ti_wfl _ _ _ T) as Wl.
+  destruct (Z.land flag cache_mask =? 0) eqn:Em; cbn [negb].
+  - (* no access mode, no O_CREATE, no O_TRUNC: the layer's OpenFile, a read-only handle *)
+    apply Z.eqb_eq in Em. rewrite (cache_mask_flag flag Hfo) in Em.
+    apply Z.lor_eq_0_iff in Em as [Ea Em]. apply Z.lor_eq_0_iff in Em as [Ec Et].
+    unfold open_layer. destruct (lookup sl key) as [rl|] eqn:Hl.
+    + rewrite (openfile_existing sl p flag perm rl Hfo Hl) by (rewrite (zero_flag_has flag o_create Ec); apply andb_false_r).
+      assert (Etr : of_tr flag = false) by (unfold of_tr; now rewrite (zero_flag_has flag o_trunc Et)).
+      assert (Ero : of_ro flag = true) by (unfold of_ro; now rewrite Ea).
+      rewrite Etr, Ero. unfold alloc_ch, ret. cbn [fst]. set (h := mkH rl 0 0 false true). set (sl' := bump (fst (alloc_handle sl h))).
+      pose proof (CInvP_handles sb sl tbl phi sb sl' (conj T B) (same2_refl sb) (same2_alloc sl h) (hkeep_refl sb) (hkeep_alloc sl h)) as [T' B'].
+      exists phi. split; [exact T'|]. destruct (tbl_handles_below sb sl tbl phi B) as [_ Hfl].
+      apply TblInv_new_single; auto.
+      * cbn [EntOK]. exists h. split; [apply (hnew_alloc sl h) | reflexivity].
+      * intros i ci x Hi Hin Hx. destruct Hx as [Hx|[]]. subst x. exact (Hfl i ci Hi Hin).
+    + rewrite (openfile_missing sl p flag perm Hl (zero_flag_has flag o_create Ec)). unfold ret. cbn [fst].
+      exists phi. apply (CInvP_view sb sl tbl phi); [apply same3_refl | apply same3_bump | now split].
+  - (* a UnionFile over both layers *)
+    apply Z.eqb_neq in Em. specialize (Hfile Em). unfold is_file_at in Hfile.
+    destruct (kind_at sl key) as [[|]|] eqn:Ek; try discriminate Hfile. apply kind_at_some in Ek as (rl & nl & Hl & Hnl & Hdl).
+    destruct (ti_key _ _ _ T key rl Hl) as (rb & Hp & Hb). destruct (ti_pair _ _ _ T rl rb Hp) as (nl0 & nb & Hnl0 & Hnb & Hkd & Hdat).
+    rewrite Hnl in Hnl0. inversion Hnl0; subst nl0. assert (Hdb : ndir nb = false) by congruence.
+    destruct (flag_has flag o_excl && flag_has flag o_create) eqn:Ex.
+    + rewrite (openfile_excl sb p flag perm rb Hb Ex). cbn [fst cret].
+      exists phi. apply (CInvP_view sb sl tbl phi); [apply same3_bump | apply same3_refl | now split].
+    + rewrite (openfile_existing sb p flag perm rb Hfo Hb Ex), (openfile_existing sl p flag perm rl Hfo Hl Ex).
+      destruct (openfile_existing_frame sb flag rb nb Wb Hnb (fun _ => Hdb)) as (Wb' & Fb & Db & Kb & Hhb & _ & Hlkb & (nb' & Hnb' & _ & Heb')).
+      destruct (openfile_existing_frame sl flag rl nl Wl Hnl (fun _ => Hdl)) as (Wl' & Fl & Dl & Kl & Hhl & _ & Hlkl & (nl' & Hnl' & Hdl' & Hel')).
+      set (sb' := bump (fst (alloc_handle (if of_tr flag then upd_node sb rb (trunc_node (mclock sb)) else sb) (mkH rb 0 0 false (of_ro flag))))) in *.
+      set (sl' := bump (fst (alloc_handle (if of_tr flag then upd_node sl rl (trunc_node (mclock sl)) else sl) (mkH rl 0 0 false (of_ro flag))))) in *.
+      unfold alloc_ch. cbn [fst cret].
+      destruct (cinv_step_gen sb sl tbl phi sb' sl' Some (conj T B) Wb' Wl' Fb Fl) as (phi' & [T' B'] & Hext).
+      * intros x y nx ny Hxy Hnx Hny. destruct (ti_pair _ _ _ T x y Hxy) as (nx0 & ny0 & Hnx0 & Hny0 & _ & Hd0).
+        destruct (Nat.eq_dec y rb) as [->|Hne].
+        -- assert (x = rl) by exact (ti_inj _ _ _ T x rl rb Hxy Hp). subst x.
+           rewrite Hnl' in Hnx. rewrite Hnb' in Hny. inversion Hnx; inversion Hny; subst nx ny. rewrite Heb', Hel'.
+           destruct (of_tr flag); [reflexivity | congruence].
+        -- assert (Hnex : x <> rl) by (intros ->; apply Hne; congruence).
+           rewrite (Dl x nx0 nx Hnx0 Hnx) by (intros [_ E]; contradiction). rewrite (Db y ny0 ny Hny0 Hny) by (intros [_ E]; contradiction). exact Hd0.
+      * exact Kb.
+      * exact Kl.
+      * intros k' r Hk Hf. exfalso. exact (no_fresh_of_lookup sl sl' Wl Hlkl k' r Hk Hf).
+      * exists phi'. split; [exact T'|]. destruct (tbl_handles_below sb sl tbl phi B) as [Hfb Hfl].
+        apply (TblInv_new_union sb' sl' tbl phi' (length (mhandles sb)) (length (mhandles sl)) _ _ B' Hhb Hhl); auto.
+        -- repeat split.
+        -- cbn [href]. intros n Hn Hd. rewrite Hnl' in Hn. inversion Hn; subst n. congruence.
+Qed.
+
+(* ---------- copyFileToLayer: the base is opened with the caller's flags (it may create or truncate the file) ---------- *)
+Lemma cinv_copy_with sb sl tbl phi p flag perm :
+  CInvP sb sl tbl phi -> WfOps.wf_op sb (OpenFile p flag perm) = true -> is_dir_at sb (normalize_path p) = false ->
+  exists sb2 sl2 oe phi', copy_to_layer_with m_step m_step sb sl p (OpenFile p flag perm) = (sb2, sl2, oe) /\
+    CInvP sb2 sl2 tbl phi' /\ (oe = None -> is_file_at sl2 (normalize_path p) = true).
+Proof.
+  intros [T B] Hwf Hnd. set (key := normalize_path p) in *.
+  pose proof (ti_wfb _ _ _ T) as Wb. pose proof (ti_wfl _ _ _ T) as Wl. pose proof (TreeInv_shape _ _ _ T) as TS.
+  pose proof Hwf as Hwf0. cbn [WfOps.wf_op] in Hwf0. fold key in Hwf0. apply andb_true_iff in Hwf0 as [Hw Hk]. apply andb_true_iff in Hw as [Hw Hfo].
+  unfold copy_to_layer_with.
+  (* the copy once the base file is open through a fresh handle *)
+  assert (Hgo : forall sb1 fb nb1 bh,
+            WF sb1 -> Frame Some sb sb1 -> hkeep sb sb1 -> bh = length (mhandles sb) ->
+            (forall r n n', get_node sb r = Some n -> get_node sb1 r = Some n' -> r <> fb -> ndata n' = ndata n) ->
+            lookup sb1 key = Some fb -> BaseAt' sb1 bh fb nb1 0 -> ndir nb1 = false ->
+            exists sb2 sl2 oe phi', (let '(sb2, sl1, e) := copy_file m_step m_step sb1 sl p bh in (fst (m_step sb2 (HClose bh)), sl1, e)) = (sb2, sl2, oe) /\
+              CInvP sb2 sl2 tbl phi' /\ (oe = None -> is_file_at sl2 key = true)).
+  { intros sb1 fb nb1 bh W1 F1 K1 Ebh D1 Hl1 Hb1 Hd1.
+    assert (T1 : TreeShape sb1 sl phi) by (now apply (TreeShape_base_grow sb sl phi sb1)).
+    assert (B1 : TblInv sb1 sl tbl phi).
+    { apply (TblInv_mono sb sl tbl phi sb1 sl phi B K1); [apply hkeep_refl | intros r n Hn; now exists n | auto | exact (phi_has_node phi sb sl T)]. }
+    destruct (cinv_copy sb1 sl tbl phi p bh fb nb1 T1 B1) as (sb2 & sl' & phi' & Hcf & C' & _ & Hfile & _); auto.
+    - intros rl rb nl nb' Hp Hne Hnl Hnb'. destruct (ti_pair _ _ _ T rl rb Hp) as (x & y & Hx & Hy & _ & Hxy).
+      rewrite (D1 rb y nb' Hy Hnb' Hne). congruence.
+    - intros i c Hic Hin. subst bh. destruct (tbl_handles_below sb sl tbl phi B) as [Hfb _]. exact (Hfb i c Hic Hin).
+    - rewrite Hcf. exists (fst (m_step sb2 (HClose bh))), sl', None, phi'. split; [reflexivity|]. split; [exact C'|]. intros _. exact Hfile. }
+  destruct (lookup sb key) as [fb|] eqn:Hlb.
+  - destruct (GWF_lookup_node _ _ _ _ _ _ Wb Hlb) as (nb & Hnb).
+    assert (Hdb : ndir nb = false).
+    { unfold is_dir_at, kind_at in Hnd. rewrite Hlb, Hnb in Hnd. now destruct (ndir nb). }
+    destruct (flag_has flag o_excl && flag_has flag o_create) eqn:Ex.
+    + rewrite (openfile_excl sb p flag perm fb Hlb Ex). cbn [res_err]. exists (bump sb), sl, (Some (EW KExist)), phi.
+      split; [reflexivity|]. split; [apply (CInvP_view sb sl tbl phi); [apply same3_bump | apply same3_refl | now split] | discriminate].
+    + rewrite (openfile_existing sb p flag perm fb Hfo Hlb Ex).
+      destruct (openfile_existing_frame sb flag fb nb Wb Hnb (fun _ => Hdb)) as (W1 & F1 & D1 & K1 & Hh1 & _ & Hlk1 & (nb1 & Hnb1 & Hdk1 & _)).
+      apply (Hgo _ fb nb1 (length (mhandles sb)) W1 F1 K1 eq_refl).
+      * intros r n n' Hn Hn' Hne. apply (D1 r n n' Hn Hn'). intros [_ E]. contradiction.
+      * rewrite Hlk1. exact Hlb.
+      * eexists. split; [exact Hh1|]. repeat split. exact Hnb1.
+      * congruence.
+  - assert (Hkn : kind_at sb key = None) by (unfold kind_at; now rewrite Hlb). rewrite Hkn in Hk.
+    destruct (flag_has flag o_create) eqn:Ec.
+    + destruct (openfile_create_step sb p flag perm Wb Hwf Hlb Ec) as (fb & Hres & W1 & F1 & D1 & K1 & Hh1 & _ & Hl1 & (n1 & Hn1 & Hd1 & _) & Hf1 & _).
+      fold key in Hl1.
+      destruct (m_step sb (OpenFile p flag perm)) as [sb1 r] eqn:Eo. cbn [fst snd] in *. subst r.
+      apply (Hgo sb1 fb n1 (length (mhandles sb)) W1 F1 K1 eq_refl).
+      * intros r n n' Hn Hn' _. exact (D1 r n n' Hn Hn' (fun H => H)).
+      * exact Hl1.
+      * eexists. split; [exact Hh1|]. repeat split. exact Hn1.
+      * exact Hd1.
+    + rewrite (openfile_missing sb p flag perm Hlb Ec). cbn [res_err]. exists (bump sb), sl, (Some (EW KNotExist)), phi.
+      split; [reflexivity|]. split; [apply (CInvP_view sb sl tbl phi); [apply same3_bump | apply same3_refl | now split] | discriminate].
+Qed.
+
+(* ---------- OpenFile ---------- *)
+Definition hit_b (c : cache_state) : bool := match c with CHit => true | _ => false end.
+(* the one call outside the class: OpenFile of a DIRECTORY of the base that is not served as a hit —
+   CacheOnReadFs.OpenFile then copies the directory like a file (copyFileToLayer) and fails with EIO *)
+Definition openfile_dir_ok (dur now : Z) (sb sl : mst) (p : str) : bool :=
+  negb (is_dir_at sb (normalize_path p)) || hit_b (cs_state (cache_status m_step m_step dur now sb sl p)).
+
+Lemma copyfiletolayer_clears_append_is_1 : copyfiletolayer_clears_append = 1. Proof. reflexivity. Qed.
+Lemma cache_openfile_clears_excl_is_1 : cache_openfile_clears_excl = 1. Proof. reflexivity. Qed.
+
+Theorem cinv_openfile dur now sb sl tbl p flag perm :
+  CInv (sb, sl, tbl) -> WfOps.wf_op sb (OpenFile p flag perm) = true -> openfile_dir_ok dur now sb sl p = true ->
+  CInv (fst (cache_step m_step m_step dur now (sb, sl, tbl) (OpenFile p flag perm))).
+Proof.
+  intros (phi & C) Hwf Hok. cbn [cache_step]. set (key := normalize_path p) in *.
+  pose proof Hwf as Hwf0. cbn [WfOps.wf_op] in Hwf0. fold key in Hwf0. apply andb_true_iff in Hwf0 as [Hw Hk]. apply andb_true_iff in Hw as [Hw Hfo].
+  unfold openfile_dir_ok in Hok. fold key in Hok.
+  destruct (status_mem dur now sb sl phi p (TreeInv_shape _ _ _ (proj1 C))) as (sb1 & sl1 & cs & fi & Est & Sb & Sl & Hcs).
+  rewrite Est in *. cbn [cs_state] in Hok. pose proof (CInvP_view sb sl tbl phi sb1 sl1 Sb Sl C) as C1.
+  pose proof (same3_kind_same _ _ Sb) as Kb.
+  rewrite copyfiletolayer_clears_append_is_1, cache_openfile_clears_excl_is_1. cbn [Z.eqb Pos.eqb].
+  (* miss / stale: the copy, then the opening with O_EXCL cleared *)
+  assert (Hcopy : is_dir_at sb key = false ->
+            CInv (fst (match copy_to_layer_with m_step m_step sb1 sl1 p (OpenFile p (Z.land flag (Z.lnot o_append)) perm) with
+                       | (sb2, sl2, Some ce) => cret sb2 sl2 tbl (RErr ce)
+                       | (sb2, sl2, None) => open_tail sb2 sl2 tbl p (Z.land flag (Z.lnot o_excl)) perm
+                       end))).
+  { intros Hnd. rewrite (flag_ok_no_append flag Hfo).
+    destruct (cinv_copy_with sb1 sl1 tbl phi p flag perm C1) as (sb2 & sl2 & oe & phi2 & Ecp & C2 & Hfile).
+    { rewrite (ks_wf_op sb sb1 Kb). exact Hwf. } { fold key. rewrite (ks_is_dir sb sb1 Kb). exact Hnd. }
+    rewrite Ecp. destruct oe as [ce|]; [cbn [fst cret]; now exists phi2|].
+    apply (cinv_open_tail sb2 sl2 tbl phi2 p _ perm C2 (flag_ok_clear_excl flag Hfo)). intros _. exact (Hfile eq_refl). }
+  destruct cs; cbn [hit_b] in Hok; rewrite ?orb_false_r in Hok.
+  - apply negb_true_iff in Hok. exact (Hcopy Hok).
+  - apply negb_true_iff in Hok. exact (Hcopy Hok).
+  - (* hit *)
+    change (CInv (fst (open_tail sb1 sl1 tbl p flag perm))).
+    apply (cinv_open_tail sb1 sl1 tbl phi p flag perm C1 Hfo). intros Hm.
+    destruct Hcs as (rl & nl & f & Hl & Hnl & _). fold key in Hl.
+    unfold is_file_at, kind_at. fold key. rewrite (same3_lookup _ _ _ Sl), Hl, (same3_node _ _ _ Sl), Hnl.
+    destruct (ndir nl) eqn:Hd; [|reflexivity]. exfalso. apply Hm.
+    assert (Ekb : kind_at sb key = Some true).
+    { apply (layer_kind_base sb sl phi (TreeInv_shape _ _ _ (proj1 C)) key true). unfold kind_at. now rewrite Hl, Hnl, Hd. }
+    rewrite Ekb in Hk. apply andb_true_iff in Hk as [Ha Hc]. apply Z.eqb_eq in Ha. apply negb_true_iff in Hc.
+    rewrite (cache_mask_flag flag Hfo), Ha, (flag_has_zero flag o_create ltac:(discriminate) Hc), (flag_ok_trunc_access flag Hfo Ha). reflexivity.
+  - destruct Hcs.
+Qed.
